@@ -683,7 +683,9 @@ func (g *Gen) instr(b *ssa.BasicBlock, idx int, ins ssa.Instruction) {
 				g.curStore = &storeRec{base: a.Base, baseVal: bv, whole: true}
 			}
 		}
+		g.curOpaque = g.opaqueSrc[x.Val]
 		g.storeValue(a, x.Val.Type(), g.term(x.Val).S, 0)
+		g.curOpaque = nil
 		g.curStore = nil
 	case *ssa.FieldAddr:
 		g.fieldAddr(x)
@@ -823,7 +825,12 @@ func (g *Gen) alloc(x *ssa.Alloc) {
 	switch u := et.Underlying().(type) {
 	case *types.Struct:
 		if g.structTransparent(et) {
+			g.zeroing = true
 			g.storeValue(Addr{Base: r}, et, g.zero(et), 0)
+			g.zeroing = false
+		} else if n, ok := et.(*types.Named); ok && isModulePkg(n.Obj().Pkg()) && u.NumFields() <= 300 {
+			// a struct of this module that is too large for a datatype value: new(T) / &T{...} starts from the zero value
+			g.zeroFields(r, et, 0)
 		}
 	case *types.Array:
 		h, s := g.elemHeap(u.Elem())
@@ -856,6 +863,16 @@ func (g *Gen) unop(x *ssa.UnOp) {
 		a := g.addrOf(x.X)
 		g.safety("nil", "load", fmt.Sprintf("(not (= %s 0))", a.Base), x.Pos())
 		v := g.loadValueIn(g.cur, a, x.Type(), 0)
+		if _, isSt := structOf(x.Type()); isSt && !g.structTransparent(x.Type()) && a.Base != "" {
+			snap := State{}
+			for k, vv := range g.cur {
+				snap[k] = vv
+			}
+			if g.opaqueSrc == nil {
+				g.opaqueSrc = map[ssa.Value]*opaqueLoad{}
+			}
+			g.opaqueSrc[x] = &opaqueLoad{st: snap, base: a.Base, t: x.Type()}
+		}
 		t := g.define(x, v)
 		if v != "" {
 			g.assume(g.typeInv(t.S, x.Type()))
